@@ -534,6 +534,7 @@ func (s *c16Side) SendSidecarPkt(_ context.Context, pkt *sidecar.Ticket, provide
 	// the real mailbox serialises the ticket first
 	var buf bytes.Buffer
 	if err := sidecar.SerializeTicket(&buf, pkt); err != nil {
+		atomic.StoreInt32(&s.w.sendRejected, 1)
 		return err
 	}
 	ok := s.script == nil || s.script.sendOk
@@ -621,13 +622,14 @@ type c16World struct {
 	dir string
 	mu  sync.Mutex
 
-	p, rc    *c16Side
-	pendingR map[[32]byte]*sidecar.Ticket
-	bids     int
-	toP, toR [][]byte
-	effs     []string
-	inCh     map[string]chan c16Msg
-	waiting  map[string]*int32
+	p, rc        *c16Side
+	pendingR     map[[32]byte]*sidecar.Ticket
+	sendRejected int32
+	bids         int
+	toP, toR     [][]byte
+	effs         []string
+	inCh         map[string]chan c16Msg
+	waiting      map[string]*int32
 
 	// oracle material
 	expected []*sidecar.Ticket
@@ -1571,23 +1573,36 @@ type c16Sched struct {
 
 // ---------------------------------------------------------------- single steps
 
-func c16ErrCode(err error) int {
-	s := err.Error()
-	switch {
-	case strings.Contains(s, "unable to update ticket"):
-		return 2
-	case strings.Contains(s, "unable to submit sidecar order"):
-		return 3
-	case strings.Contains(s, "unable to verify ticket"):
-		return 4
-	case strings.Contains(s, "failed to expect channel"):
-		return 5
-	case strings.Contains(s, "unhandled"):
-		return 6
-	case strings.Contains(s, "send") || strings.Contains(s, "ticket cannot be nil"):
+// c16ErrClass classifies a failed step by WHICH proxy call failed (the call
+// trace of the driver / mailbox wrappers), never by the error text: the step
+// functions return right after the first failing call.
+func c16ErrClass(effs string, sendRejected bool) int {
+	if effs != "-" {
+		parts := strings.Split(effs, ",")
+		last := parts[len(parts)-1]
+		f := strings.Split(last, ":")
+		failed := f[len(f)-1] == "0" || f[len(f)-1] == "other" || f[len(f)-1] == "exists"
+		if failed {
+			switch f[0] {
+			case "snd":
+				return 1
+			case "upd":
+				return 2
+			case "sub":
+				return 3
+			case "val":
+				return 4
+			case "exp":
+				return 5
+			}
+		}
+	}
+	if sendRejected {
+		// the mailbox refused the ticket before sending (nil ticket)
 		return 1
 	}
-	return 99
+	// no call failed: the step did not know what to do with the packet
+	return 6
 }
 
 // c16Step runs ONE real stateStepProvider / stateStepRecipient call.
@@ -1597,6 +1612,7 @@ func c16Step(w *c16World, prov bool, cur int, recvTok, provTok string, sc *c16Sc
 	s.script = sc
 	s.gen = &c16Gen{crashAfter: -1}
 	recv, pv := k.mk(recvTok), k.mk(provTok)
+	atomic.StoreInt32(&w.sendRejected, 0)
 	pkt := &pool.SidecarPacket{CurrentState: sidecar.State(cur), ReceiverTicket: recv, ProviderTicket: pv}
 	neg := pool.NewSidecarNegotiator(pool.AutoAcceptorConfig{
 		Provider: prov, StartingPkt: pkt, Driver: s, MailBox: s,
@@ -1648,7 +1664,7 @@ func c16Step(w *c16World, prov bool, cur int, recvTok, provTok string, sc *c16Sc
 	}
 	var head string
 	if err != nil {
-		head = fmt.Sprintf("err %d", c16ErrCode(err))
+		head = fmt.Sprintf("err %d", c16ErrClass(effs, atomic.SwapInt32(&w.sendRejected, 0) == 1))
 	} else {
 		head = fmt.Sprintf("ok %d %s %s", uint8(out.CurrentState), k.tok(out.ReceiverTicket), k.tok(out.ProviderTicket))
 	}
